@@ -196,6 +196,7 @@ def _inline_once(cur, f, depth, stack, rnd):
         for i, st, g, mode, var in sorted(by_block[bid], key=lambda x: -x[0]):
             gi = g if g.is_lambda else inline(g, depth + 1, stack + (f.id,))
             _splice(d, stmts, blocks, next_block, counter, bid, i, st.get("id"), gi, "r%d" % rnd, mode, var)
+    _prune_constant_branches(stmts, blocks, d["cfg"]["entry"])
     _renumber(d, blocks)
     d["inlined_from"] = sorted(set(d.get("inlined_from", [])) | {x[3].qname for x in sites})
     d["inlined_ids"] = sorted(set(d.get("inlined_ids", [])) | {x[3].id for x in sites} |
@@ -206,6 +207,101 @@ def _inline_once(cur, f, depth, stack, rnd):
     nf.inlined_ids = set(d["inlined_ids"])
     nf.invalid = f.invalid
     return nf
+
+
+_WRAP = ("ImplicitCastExpr", "ParenExpr", "ExprWithCleanups", "MaterializeTemporaryExpr", "CXXBindTemporaryExpr", "ConstantExpr",
+         "CXXFunctionalCastExpr", "CXXStaticCastExpr")
+
+
+def _prune_constant_branches(stmts, blocks, entry):
+    """a helper parameterised by a flag (`arrive(bool drop)`, `acquire(bool blocking)`) is inlined with the flag bound
+    to a literal at each call site: a branch on that parameter is decided there.  The dead edge is removed, so that
+    dominance, path enumeration and the dataflows see the specialised code of this call site."""
+    def strip(sid):
+        neg = False
+        st = stmts.get(sid)
+        n = 0
+        while st is not None and n < 30:
+            n += 1
+            if st["k"] in _WRAP:
+                ch = [c for c in st.get("ch", []) if c]
+                st = stmts.get(ch[0]) if ch else None
+                continue
+            if st["k"] == "UnaryOperator" and st.get("op") == "!":
+                neg = not neg
+                ch = [c for c in st.get("ch", []) if c]
+                st = stmts.get(ch[0]) if ch else None
+                continue
+            break
+        return st, neg
+
+    bound = {}       # declaration id of an inlined parameter -> literal truth value
+    assigned = set()
+    for st in stmts.values():
+        if st.get("k") == "DeclStmt":
+            for dd in st.get("decls", []):
+                if dd.get("inl") and dd.get("init") and not dd.get("ref"):
+                    e, neg = strip(dd["init"])
+                    if e is not None and e["k"] == "CXXBoolLiteralExpr":
+                        bound[dd["id"]] = bool(e.get("v")) != neg
+                    elif e is not None and e["k"] == "IntegerLiteral" and isinstance(e.get("v"), int):
+                        bound[dd["id"]] = (e["v"] != 0) != neg
+        elif st.get("k") in ("BinaryOperator", "CompoundAssignOperator") and (st.get("op") == "=" or st["k"] == "CompoundAssignOperator"):
+            ch = [c for c in st.get("ch", []) if c]
+            l, _ = strip(ch[0]) if ch else (None, False)
+            if l is not None and l["k"] == "DeclRefExpr":
+                assigned.add(l["d"].get("id"))
+        elif st.get("k") == "UnaryOperator" and st.get("op") in ("++", "--", "&"):
+            ch = [c for c in st.get("ch", []) if c]
+            l, _ = strip(ch[0]) if ch else (None, False)
+            if l is not None and l["k"] == "DeclRefExpr":
+                assigned.add(l["d"].get("id"))
+    if not bound:
+        return
+
+    def reach(entry):
+        seen, work = set(), [entry]
+        while work:
+            b = work.pop()
+            if b in seen or b is None or b not in blocks:
+                continue
+            seen.add(b)
+            work += [x for x in blocks[b]["succs"] if x is not None]
+        return seen
+    before = reach(entry)
+    for blk in blocks.values():
+        t = blk.get("term")
+        if not t or not t.get("cond") or len(blk["succs"]) != 2 or t.get("k") not in ("IfStmt", "ConditionalOperator", "WhileStmt"):
+            continue
+        c, neg = strip(t["cond"])
+        if c is None or c["k"] != "DeclRefExpr":
+            continue
+        did = c["d"].get("id")
+        if did in bound and did not in assigned:
+            val = bound[did] != neg
+            dead = 1 if val else 0
+            blk["succs"] = list(blk["succs"])
+            blk["succs"][dead] = None
+            blk["pruned"] = dead
+    # what the decided branches cut off is not part of this call site's code: drop those statements, so that rules
+    # which scan the statement table do not judge code that cannot run here
+    after = reach(entry)
+    gone = before - after
+    if gone:
+        live_ids, dead_ids = set(), set()
+        for b_, blk_ in blocks.items():
+            for e in blk_["elems"]:
+                if e.get("s"):
+                    (dead_ids if b_ in gone else live_ids).add(e["s"])
+            t = blk_.get("term") or {}
+            for key in ("cond",):
+                if t.get(key):
+                    (dead_ids if b_ in gone else live_ids).add(t[key])
+        for sid in dead_ids - live_ids:
+            stmts.pop(sid, None)
+        for b_ in gone:
+            blocks[b_]["elems"] = []
+            blocks[b_]["dead"] = True
 
 
 def _renumber(d, blocks):
@@ -310,6 +406,8 @@ def _splice(d, stmts, blocks, next_block, counter, bid, idx, call_id, g, rnd, mo
     for sid, st in gd["stmts"].items():
         ns = _rewrite(st, idmap)
         k = ns["k"]
+        if isinstance(ns.get("inl_return"), str):
+            ns["inl_return"] = pre + ns["inl_return"]       # a helper that was itself inlined into this helper
         if k == "DeclRefExpr" and ns.get("d", {}).get("k") in ("local", "param"):
             ns["d"] = rename_decl(ns["d"])
         elif k == "DeclStmt":
